@@ -60,6 +60,13 @@ func (r *Registry) Get(ctx context.Context, p []sop.RegistryPayload[sop.UUID]) (
 		return nil, r.H.after(r.Txn, "REG.Get", d, map[string]any{"ids": r.H.lids(p)}, nil, ErrInjected)
 	}
 	res, err := r.Inner.Get(ctx, p)
+	if r.H.Tap != nil && err == nil {
+		for _, x := range res {
+			for _, h := range x.IDs {
+				r.H.Tap("handle", []sop.UUID{h.LogicalID})
+			}
+		}
+	}
 	err = r.H.after(r.Txn, "REG.Get", d, map[string]any{"ids": r.H.lids(p)}, map[string]any{"h": r.H.handles(res)}, err)
 	if err != nil {
 		return nil, err
@@ -132,6 +139,9 @@ func (b *BlobStore) GetOne(ctx context.Context, tbl string, id sop.UUID) ([]byte
 		return nil, b.H.after(b.Txn, "BLOB.GetOne", d, args, nil, ErrInjected)
 	}
 	ba, err := b.Inner.GetOne(ctx, tbl, id)
+	if b.H.Tap != nil && err == nil {
+		b.H.Tap("blob", []sop.UUID{id})
+	}
 	err = b.H.after(b.Txn, "BLOB.GetOne", d, args, map[string]any{"len": len(ba)}, err)
 	if err != nil {
 		return nil, err
